@@ -351,8 +351,16 @@ def _check_shapes(ctx, venv, obs, n, loc) -> None:
 
 
 def _check_step(ctx, case, venv, ref, got, actions, loc) -> bool:
-    obs, rew, term, trunc, infos = got
     want = ref.step(actions)
+    try:
+        return _check_step_inner(ctx, case, venv, ref, got, want, loc)
+    except (ValueError, TypeError, IndexError, KeyError, AttributeError) as e:
+        ctx.report("C12/malformed_result", f"step result cannot be read position by position: {type(e).__name__}: {str(e)[:200]}", **loc)
+        return False
+
+
+def _check_step_inner(ctx, case, venv, ref, got, want, loc) -> bool:
+    obs, rew, term, trunc, infos = got
     ok = True
     for i, (o, r, te, tr, inf, auto, final_o) in enumerate(want):
         if auto:
@@ -418,7 +426,7 @@ def _run_c12(ctx, case, sched, world, patched, loc) -> None:
                     break
                 _check_shapes(ctx, venv, got[0], n, loc)
                 obs = got[0]
-            if case.get("copy", True):
+            if case.get("copy", True) and isinstance(obs, dict):
                 for k, (o_, snap) in enumerate(handed):
                     if any(not np.array_equal(x, y) for x, y in zip(_leaves(o_), _leaves(snap))):
                         ctx.report("C12/copy_mode_obs_altered", f"an observation returned {len(handed) - k} calls ago changed after op {oi}", **loc)
